@@ -33,6 +33,11 @@ fn pick_index(rng: &mut Rng, n: usize) -> usize {
     if n <= 64 {
         return rng.below(n);
     }
+    if n > 65_536 && rng.chance(0.6) {
+        // around the 16-bit boundary, and pairs that are congruent modulo 2^16
+        let c = [0usize, 1, 65_535, 65_536, 65_537, n - 1, n - 65_536 - 1];
+        return *rng.pick(&c) % n;
+    }
     let base = [0usize, 1, 5, 63][rng.below(4)];
     let cands: Vec<usize> = (0..4).map(|k| base + 64 * k).filter(|&x| x < n).collect();
     if cands.is_empty() || rng.chance(0.15) { rng.below(n) } else { *rng.pick(&cands) }
@@ -204,7 +209,7 @@ fn op_kind(op: &Op) -> &'static str {
 }
 
 pub fn run(run: &mut Run) {
-    run.rule = "random operation histories (length <= 200, all nine mutators incl. bulk inserts with repeated indices) on tiny shapes 1..6 x 1..6 (every 16th up to 12x12, every 256th 20..48 x 20..48, every 32nd tall or wide with one dimension 65..200 and indices clustered on residues modulo 64); after EVERY operation the whole query API is compared with a BTreeSet model; a history is non-trivial if it executes at least one toggle-off, remove of a present entry or clear/set on a non-empty line; distinct = digest of (shape, operation list)".into();
+    run.rule = "random operation histories (length <= 200, all nine mutators incl. bulk inserts with repeated indices) on tiny shapes 1..6 x 1..6 (every 16th up to 12x12, every 256th 20..48 x 20..48, every 32nd tall or wide with one dimension 65..200 and indices clustered on residues modulo 64, every 4096th with one dimension beyond 2^16 and indices around that boundary); after EVERY operation the whole query API is compared with a BTreeSet model; a history is non-trivial if it executes at least one toggle-off, remove of a present entry or clear/set on a non-empty line; distinct = digest of (shape, operation list)".into();
     run.assumptions = vec![
         "iterator contents are compared as sets (the statement does not fix list order)".into(),
         "out-of-range indices are outside the domain (they index out of bounds by contract)".into(),
@@ -215,7 +220,13 @@ pub fn run(run: &mut Run) {
         let big = idx % 16 == 15;
         let huge = idx % 256 == 255 && !cfg!(miri);
         let long = idx % 32 == 7 && !cfg!(miri);
-        let (rows, cols) = if long {
+        let vlong = idx % 4096 == 1023 && !cfg!(miri);
+        let (rows, cols) = if vlong {
+            // index widths: one dimension beyond 2^16
+            let a = 65_537 + rng.below(3000);
+            let b = rng.range(1, 3);
+            if rng.coin() { (a, b) } else { (b, a) }
+        } else if long {
             // one long dimension (beyond 64 and beyond 128), the other tiny: tall and wide
             let a = rng.range(65, 200);
             let b = rng.range(1, 4);
@@ -227,7 +238,7 @@ pub fn run(run: &mut Run) {
         } else {
             (rng.range(1, 6), rng.range(1, 6))
         };
-        let len = if cfg!(miri) { rng.range(1, 25) } else { rng.range(1, 200) };
+        let len = if cfg!(miri) { rng.range(1, 25) } else if vlong { rng.range(5, 30) } else { rng.range(1, 200) };
         let mut h = SparseMatrix::new(rows, cols);
         let mut m = Model::new();
         let mut ops: Vec<Op> = Vec::new();
